@@ -68,6 +68,8 @@ RULES = [
     ("R7", re.compile(r'\b([A-Za-z_]\w*)\.clone\(\)\.into_iter\(\)\.collect\(\)'), r'vecdeque_from_vec(&\1)', "`v.clone().into_iter().collect()` -> `vecdeque_from_vec(&v)`"),
     ("R8", re.compile(r'\b([A-Za-z_]\w*)\[&([A-Za-z_]\w*)\]'), r'(*\1.get(&\2).unwrap())', "`m[&k]` (HashMap) -> `(*m.get(&k).unwrap())`"),
     ("R10", re.compile(r'\brand::rng\(\)'), 'rand_rng()', "`rand::rng()` -> `rand_rng()` (prelude stub for the thread generator)"),
+    ("R13", re.compile(r'\bif (\w+\.elapsed\(\)(?:\.as_secs_f64\(\))?) > ([\w.]+) \{'), r'let elapsed__v = \1; if elapsed__v > \2 {', "`if X.elapsed() > T {` -> `let elapsed__v = X.elapsed(); if elapsed__v > T {` (names the clock reading)"),
+    ("R14", None, None, "`S.sample_goal(..).unwrap()` / `S.sample_uniform(..).unwrap()` -> `{ let sample__r = S.sample_…(..); proof { assert(sample__r is Ok); } sample__r.unwrap() }` (let-binding plus a named ghost obligation)"),
     ("R11", re.compile(r'\bvec!\[false; ([^\]]+)\]'), r'vec_of_false(\1)', "`vec![false; n]` -> `vec_of_false(n)`"),
 ]
 
@@ -147,6 +149,9 @@ class Ann:
 
 
 MARK = re.compile(r'//@\s*([A-Za-z0-9_.\-]+)?\s*(?:\[([^\]]*)\])?\s*$')
+
+
+MARKB = re.compile(r'/\*@\s*([A-Za-z0-9_.#\-]+)\s*(?:\[([^\]]*)\])?\s*\*/')
 
 
 def _impl_blocks(s):
@@ -357,6 +362,19 @@ class Generated:
         self.dropped = {}
         self.anns = []
         self.sha = ""
+        self.repo_fns = {}
+
+    def fn_of(self, o):
+        """function name a generated line belongs to (from its origin)"""
+        if o is None:
+            return None
+        if o.get('kind') == 'repo':
+            for name, l0, l1 in self.repo_fns.get(o['file'], []):
+                if l0 <= o['line'] <= l1:
+                    return name
+        if o.get('kind') == 'ann' and str(o.get('scope', '')).startswith('fn '):
+            return o['scope'][3:].strip()
+        return None
 
     def origin(self, line):
         if 1 <= line <= len(self.origins):
@@ -389,6 +407,8 @@ def build_unit(unit):
         path = os.path.join(REPO, rel)
         keep, dropped = _strip_to_items(path)
         g.dropped[rel] = dropped
+        rs = Src(open(path).read())
+        g.repo_fns[rel] = [(f['name'], rs.line_of(f['line_start']), rs.line_of(f['close'])) for f in rs.functions()]
         # rewrite rules (line preserving)
         lines = [ln for _, ln in keep]
         body = "".join(lines)
@@ -405,6 +425,19 @@ def build_unit(unit):
                 lines2[i2] = ln2
                 cnt += n
             hits[rid] = cnt
+        # R14: `E.unwrap()` on a sampler result -> let-binding + ghost assertion that the sampler succeeded
+        # (a named, site-specific obligation; it fails on the unchanged tree and is a known finding)
+        r14 = re.compile(r'(\b[\w.]+\.(?:sample_goal|sample_uniform)\((?:[^()]|\([^()]*\))*\))\.unwrap\(\)')
+        n14 = 0
+        for i2, ln in enumerate(lines2):
+            code, sep, comment = ln.partition('//')
+            def rep14(m):
+                nonlocal n14
+                n14 += 1
+                return "{ let sample__r = %s; proof { assert(sample__r is Ok); /*@ kf.sampler_unwrap#%d [C08] */ } sample__r.unwrap() }" % (m.group(1), n14)
+            code = r14.sub(rep14, code)
+            lines2[i2] = code + sep + comment
+        hits["R14"] = n14
         for k, v in hits.items():
             g.rule_hits[k] = g.rule_hits.get(k, 0) + v
         stext = "".join(lines2)
@@ -473,6 +506,7 @@ def build_unit(unit):
                 o['clause'] = ann.id
                 o['tags'] = list(ann.tags)
                 o['ann_id'] = ann.id
+                o['scope'] = ann.scope
                 del o['ann']
                 if mm and (mm.group(1) or mm.group(2) is not None):
                     if mm.group(1):
@@ -485,6 +519,12 @@ def build_unit(unit):
                     o['clause'] = 'prelude.' + mm.group(1)
                     o['tags'] = [t.strip() for t in (mm.group(2) or '').split(',') if t.strip()]
                     o['marked'] = True
+        if o['kind'] == 'repo':
+            mb = MARKB.search(ln)
+            if mb:
+                o['clause'] = unit.NAME.replace('V-', '') + '.' + mb.group(1)
+                o['tags'] = [t.strip() for t in (mb.group(2) or '').split(',') if t.strip()]
+                o['marked'] = True
         o['text'] = ln.rstrip('\n')
         g.origins.append(o)
         pos += len(ln)
